@@ -18,6 +18,8 @@ pub struct Cell {
     pub caller: u32,
     pub trailing: bool,
     pub facade_c: bool,
+    /// other spelling of the same position: trailing `d/l/`, intermediate `d/l/.`
+    pub alt: bool,
 }
 
 pub fn cells() -> Vec<Cell> {
@@ -28,7 +30,9 @@ pub fn cells() -> Vec<Cell> {
                 for caller in UIDS {
                     for trailing in [true, false] {
                         for facade_c in [false, true] {
-                            v.push(Cell { dir_mode, dir_uid, link_uid, caller, trailing, facade_c });
+                            for alt in [false, true] {
+                                v.push(Cell { dir_mode, dir_uid, link_uid, caller, trailing, facade_c, alt });
+                            }
                         }
                     }
                 }
@@ -38,9 +42,13 @@ pub fn cells() -> Vec<Cell> {
     v
 }
 
-/// Transcription of may_follow_link() from fs/namei.c.
+/// Transcription of may_follow_link() from fs/namei.c *and of its call site*: pick_link() applies it
+/// only under WALK_TRAILING, i.e. to a link that is the last component of what is left to walk (the
+/// final component of the path, or of the body of such a link; trailing slashes do not change that).
+/// A link in the middle of a path is followed without the check. (Verified on this kernel with the
+/// real sysctl switched on for two seconds: `sticky/evil` and `sticky/evil/` EACCES, `sticky/evil/inner` ok.)
 pub fn kernel_rule(sysctl: u32, c: &Cell) -> bool {
-    if sysctl == 0 {
+    if sysctl == 0 || !c.trailing {
         return true;
     }
     // allowed if the follower owns the link
@@ -121,7 +129,7 @@ pub fn fu_decode(idx: u64) -> (usize, usize, i32) {
 
 pub fn fu_cell(variant: usize) -> Cell {
     // sticky world-writable directory of root; variant 0: somebody else's link (refused), 1: the caller's own (allowed)
-    Cell { dir_mode: 0o1777, dir_uid: 0, link_uid: if variant == 0 { 1001 } else { 1000 }, caller: 1000, trailing: false, facade_c: false }
+    Cell { dir_mode: 0o1777, dir_uid: 0, link_uid: if variant == 0 { 1001 } else { 1000 }, caller: 1000, trailing: true, facade_c: false, alt: false }
 }
 
 pub fn fu_case(uni: &UniCfg, idx: u64) -> Case {
@@ -132,15 +140,15 @@ pub fn fu_case(uni: &UniCfg, idx: u64) -> Case {
     case.world = Some(world_for(&c));
     case.jobs = vec![vec![
         OpSpec::new(Op::SetEuid { uid: c.caller }),
-        OpSpec::new(Op::Resolve { path: "d/l/file".into(), nofollow: false }),
-        OpSpec::new(Op::Resolve { path: "d/l/file".into(), nofollow: false }),
+        OpSpec::new(Op::Resolve { path: "d/l".into(), nofollow: false }),
+        OpSpec::new(Op::Resolve { path: "d/l/".into(), nofollow: false }),
         // (Rust facade only: when the fault leaves the process without any /proc handle the library
         // panics - C10's known finding - and through the C API that would abort the universe)
         OpSpec::new(Op::Resolve { path: "d/l".into(), nofollow: false }),
         OpSpec::new(Op::SetEuid { uid: 0 }),
     ]];
     case.plan.script = vec![crate::sup::Dec { step, fault: Some(crate::sup::Fault::Errno(errno)), ..Default::default() }];
-    case.extra = json!({"dir_mode": "1777", "dir_uid": c.dir_uid, "link_uid": c.link_uid, "caller": c.caller, "position": "intermediate", "variant": variant, "fault_step": step, "errno": sys::errname(errno)});
+    case.extra = json!({"dir_mode": "1777", "dir_uid": c.dir_uid, "link_uid": c.link_uid, "caller": c.caller, "position": "trailing", "variant": variant, "fault_step": step, "errno": sys::errname(errno)});
     case
 }
 
@@ -249,7 +257,7 @@ fn run_chained(u: &mut Universe, b: &Batch, idx: u64, st: &mut Stats) -> bool {
     st.merge_runout(&out);
     st.nontrivial.insert(case.hash());
     // l1 (caller's own) is always allowed; l2 is judged in the root directory R
-    let l2_cell = Cell { dir_mode: rmode, dir_uid: 0, link_uid: l2_owner, caller, trailing, facade_c: c };
+    let l2_cell = Cell { dir_mode: rmode, dir_uid: 0, link_uid: l2_owner, caller, trailing, facade_c: c, alt: false };
     let allowed = kernel_rule(1, &l2_cell);
     if let Some(r) = out.records.iter().find(|r| matches!(r.spec.op, Op::Resolve { .. })) {
         st.count(&format!("chained.{}", if allowed { "rule_allows" } else { "rule_refuses" }), 1);
@@ -282,7 +290,7 @@ fn swap_world() -> WorldSpec {
 
 /// the link is exchanged for another one between the resolver's look at it and its use
 fn run_swap(u: &mut Universe, b: &Batch, idx: u64, st: &mut Stats) -> bool {
-    let (path, facade_c) = [("d/l/file", false), ("d/l", false), ("d/l/file", true), ("d/./l/../l/file", false)][idx as usize % 4];
+    let (path, facade_c) = [("d/l/", false), ("d/l", false), ("d/l", true), ("d/./l/../l", false)][idx as usize % 4];
     let mk = |script: Vec<crate::sup::Dec>| {
         let mut case = Case::new("C15", "swap", b.uni.clone());
         case.world = Some(swap_world());
@@ -353,10 +361,10 @@ fn run_first_use_race(u: &mut Universe, b: &Batch, idx: u64, st: &mut Stats) {
         let mut case = Case::new("C15", "first-use-race", b.uni.clone());
         case.fresh = true;
         case.world = Some(world_for(&c));
-        let job = |_: usize| vec![OpSpec::new(Op::SetEuid { uid: c.caller }), OpSpec::new(Op::Resolve { path: "d/l/file".into(), nofollow: false }), OpSpec::new(Op::SetEuid { uid: 0 })];
+        let job = |_: usize| vec![OpSpec::new(Op::SetEuid { uid: c.caller }), OpSpec::new(Op::Resolve { path: "d/l".into(), nofollow: false }), OpSpec::new(Op::SetEuid { uid: 0 })];
         case.jobs = vec![job(0), job(1)];
         case.plan.script = vec![crate::sup::Dec { step, switch_to: Some(1), ..Default::default() }];
-        case.extra = json!({"dir_mode": "1777", "dir_uid": c.dir_uid, "link_uid": c.link_uid, "caller": c.caller, "position": "intermediate", "variant": variant, "switch_step": step});
+        case.extra = json!({"dir_mode": "1777", "dir_uid": c.dir_uid, "link_uid": c.link_uid, "caller": c.caller, "position": "trailing", "variant": variant, "switch_step": step});
         case
     };
     let variant = case.extra["variant"].as_u64().unwrap_or(0) as usize;
@@ -400,7 +408,12 @@ pub fn world_for(c: &Cell) -> WorldSpec {
 pub fn case_for(uni: &UniCfg, idx: usize) -> Case {
     let c = &cells()[idx];
     let mut case = Case::new("C15", "matrix", uni.clone());
-    let path = if c.trailing { "d/l" } else { "d/l/file" };
+    let path = match (c.trailing, c.alt) {
+        (true, false) => "d/l",
+        (true, true) => "d/l/",
+        (false, false) => "d/l/file",
+        (false, true) => "d/l/.",
+    };
     let f = if c.facade_c { Facade::C } else { Facade::Rust };
     case.world = Some(world_for(c));
     case.jobs = vec![vec![
@@ -408,7 +421,7 @@ pub fn case_for(uni: &UniCfg, idx: usize) -> Case {
         OpSpec::new(Op::Resolve { path: path.into(), nofollow: false }).facade(f),
         OpSpec::new(Op::SetEuid { uid: 0 }),
     ]];
-    case.extra = json!({"dir_mode": format!("{:o}", c.dir_mode), "dir_uid": c.dir_uid, "link_uid": c.link_uid, "caller": c.caller, "position": if c.trailing { "trailing" } else { "intermediate" }});
+    case.extra = json!({"dir_mode": format!("{:o}", c.dir_mode), "dir_uid": c.dir_uid, "link_uid": c.link_uid, "caller": c.caller, "position": if c.trailing { "trailing" } else { "intermediate" }, "alt_spelling": c.alt, "path": path});
     case
 }
 
@@ -482,6 +495,7 @@ pub fn run(u: &mut Universe, b: &Batch, st: &mut Stats) {
                 caller: e["caller"].as_u64().unwrap_or(0) as u32,
                 trailing: e["position"].as_str() == Some("trailing"),
                 facade_c: false,
+                alt: e["alt_spelling"].as_bool().unwrap_or(false),
             }
         } else {
             cells()[idx as usize].clone()
@@ -534,14 +548,14 @@ pub fn run(u: &mut Universe, b: &Batch, st: &mut Stats) {
 
 pub fn finalise(tier: &str, seed: u64, res: coord::CheckResult) -> i32 {
     let mut extra = Map::new();
-    extra.insert("matrix".into(), json!({"dir_modes": DIR_MODES.iter().map(|m| format!("{m:o}")).collect::<Vec<_>>(), "uids": UIDS, "positions": ["trailing", "intermediate"], "facades": ["rust", "c"], "sysctl": [0, 1], "cells_per_sysctl": cells().len()}));
+    extra.insert("matrix".into(), json!({"dir_modes": DIR_MODES.iter().map(|m| format!("{m:o}")).collect::<Vec<_>>(), "uids": UIDS, "positions": ["trailing (d/l, d/l/)", "intermediate (d/l/file, d/l/.)"], "facades": ["rust", "c"], "sysctl": [0, 1], "cells_per_sysctl": cells().len()}));
     extra.insert("machine_sysctl".into(), json!(machine_sysctl()));
     coord::finalise(
         "C15",
         tier,
         seed,
         "fault_enumeration",
-        "a finite matrix enumerated completely: directory mode {plain, sticky, world-writable, sticky+world-writable} x directory owner x link owner x caller uid (each from {0,1000,1001}; the caller thread switches its effective uid with a raw per-thread setresuid) x link position {trailing, intermediate} x facade x sysctl value {0,1} substituted at the seam in an E universe (one universe per value, since the library caches it per process); oracle: a transcription of may_follow_link() from fs/namei.c; the K universe runs the same cells against the machine's real sysctl; first-use-fault: in a fresh process (sysctl=1) one errno from {EMFILE, ENOMEM, EIO, EACCES} is injected at every system call of the *first* lookup - the one during which the library reads and caches the sysctl - for a refused and an allowed cell, with the sysctl on and off, and two fault-free lookups follow: a refused link is never followed and the fault-free lookups obey the rule exactly (quick: every second placement; thorough: all); chained: a link (the caller's own) in directory D whose relative or absolute body starts with a second link in the root directory R, all combinations of mode bits of R and D and owners of the second link - each link is judged where it sits; swap: the link (refused for the caller) is exchanged with the caller's own link at every window of the lookup (and back one window later): the refused link's target is never returned; first-use-race: two threads of a fresh process run the first lookup, one switch from thread 0 to thread 1 at every step; distinct = every cell is a distinct configuration",
+        "a finite matrix enumerated completely: directory mode {plain, sticky, world-writable, sticky+world-writable} x directory owner x link owner x caller uid (each from {0,1000,1001}; the caller thread switches its effective uid with a raw per-thread setresuid) x link position {trailing, intermediate} x facade x sysctl value {0,1} substituted at the seam in an E universe (one universe per value, since the library caches it per process); oracle: a transcription of may_follow_link() from fs/namei.c and of its call site (pick_link() applies it only to a *trailing* link - the last component of what is left to walk; a link in the middle of a path is followed unchecked); the K universe runs the same cells against the machine's real sysctl; first-use-fault: in a fresh process (sysctl=1) one errno from {EMFILE, ENOMEM, EIO, EACCES} is injected at every system call of the *first* lookup - the one during which the library reads and caches the sysctl - for a refused and an allowed cell, with the sysctl on and off, and two fault-free lookups follow: a refused link is never followed and the fault-free lookups obey the rule exactly (quick: every second placement; thorough: all); chained: a link (the caller's own) in directory D whose relative or absolute body starts with a second link in the root directory R, all combinations of mode bits of R and D and owners of the second link - each link is judged where it sits; swap: the link (refused for the caller) is exchanged with the caller's own link at every window of the lookup (and back one window later): the refused link's target is never returned; first-use-race: two threads of a fresh process run the first lookup, one switch from thread 0 to thread 1 at every step; distinct = every cell is a distinct configuration",
         res,
         extra,
         vec!["the oracle is a five-line transcription of the kernel rule; the real kernel enforces it only when this machine's fs.protected_symlinks is 1 (recorded under machine_sysctl)".into()],
